@@ -159,6 +159,64 @@ fn material_driver(_ctx: &RunCtx, stats: &mut Stats, rep: &mut Reporter) {
     });
 }
 
+/// Every placement of the two kings plus one more man, both sides to move (quick: minor pieces only, where
+/// stalemate and insufficient material coincide; thorough: all five types).
+fn three_men_driver(ctx: &RunCtx, stats: &mut Stats, rep: &mut Reporter) {
+    let _ = ctx;
+    let types: &[Pc] = &[Pc::N, Pc::B, Pc::R, Pc::Q, Pc::P];
+    par_chunks(64 * 64, stats, rep, |range, st, fails| {
+        for i in range {
+            let (wk, bk) = ((i / 64) as u8, (i % 64) as u8);
+            if wk == bk || ((file_of(wk) - file_of(bk)).abs() <= 1 && (rank_of(wk) - rank_of(bk)).abs() <= 1) {
+                continue;
+            }
+            for &pc in types {
+                for c in [Col::W, Col::B] {
+                    for s in 0..64u8 {
+                        if s == wk || s == bk || (pc == Pc::P && (rank_of(s) == 0 || rank_of(s) == 7)) {
+                            continue;
+                        }
+                        for side in [Col::W, Col::B] {
+                            let mut p = RefPos::empty();
+                            p.b[wk as usize] = Some((Col::W, Pc::K));
+                            p.b[bk as usize] = Some((Col::B, Pc::K));
+                            p.b[s as usize] = Some((c, pc));
+                            p.side = side;
+                            if !p.is_valid() {
+                                continue;
+                            }
+                            let b = match Board::try_from(raw_from_ref(&p)) {
+                                Ok(b) => b,
+                                Err(_) => {
+                                    st.skip("gate_rejected_reference_valid_position");
+                                    continue;
+                                }
+                            };
+                            st.count(1);
+                            match check_outcome(&b, &p) {
+                                Ok(o) => {
+                                    if o == RefOutcome::Stalemate && p.insufficient_material() {
+                                        st.label("stalemate_with_insufficient_material");
+                                    }
+                                    if !matches!(o, RefOutcome::None) {
+                                        st.nontrivial(&p.rep_key());
+                                    }
+                                }
+                                Err(f) => {
+                                    if fails.len() < 4 {
+                                        fails.push((json!({"fen": p.fen(), "src": "three_men"}), f));
+                                    }
+                                }
+                            }
+                        }
+                    }
+                }
+            }
+        }
+    });
+    stats.sample(json!({"fen": "k7/8/1K1B4/8/8/8/8/8 b - - 0 1", "src": "three_men"}));
+}
+
 fn check_case_single(case: &Value, stats: &mut Stats) -> CheckResult {
     match case_board(case, stats)? {
         Some((b, r)) => {
@@ -182,7 +240,8 @@ pub fn property() -> Property {
         id: "C07",
         rule: "Valid positions (12 sources incl. material, mate and en-passant families), each additionally re-evaluated with the half-move \
                clock set to 0/99/100/149/150/65535; plus an exhaustive enumeration of all multisets of <= 4 extra men (5 types x 2 colours \
-               x light/dark square) with two king placements, both sides to move and 5 clock values. Oracle: reference classifier \
+               x light/dark square) with two king placements, both sides to move and 5 clock values; and every 3-man position \
+               (all five types, ~4M positions), where stalemate and insufficient material coincide. Oracle: reference classifier \
                (no legal move: checkmate/stalemate; else mandatory if insufficient material by (file+rank) parity or clock >= 150; else \
                claimable if clock >= 100): calc_outcome must be in the right class with a reason that applies; calc_draw_simple likewise; \
                has_legal_moves <=> reference legal set non-empty; is_check. Non-trivial = outcome present, or clock 99/149, or only \
@@ -200,6 +259,15 @@ pub fn property() -> Property {
                     r#"{"fen":"7k/8/8/K2Pp2r/8/8/8/8 w - e6 0 1","src":"regression_D1"}"#,
                 ],
                 exhaustive: false,
+            },
+            SubCheck {
+                name: "three_men_exhaustive",
+                driver: Driver::Custom { run: three_men_driver },
+                check: check_case_single,
+                configs: Configs::ReleaseOnly,
+                required: &["stalemate_with_insufficient_material"],
+                regressions: &[],
+                exhaustive: true,
             },
             SubCheck {
                 name: "material_exhaustive",
